@@ -82,7 +82,8 @@ def harness(sym):
 def _shards(tier):
     if tier == "quick":
         # + a pause that lasts a tick before the next commands (the output command keeps writing during the pause)
-        return [{"template": t, "n": 3, "cmds": [a]} for t in TEMPLATES for a in CMDS] + [{"template": "long_output", "n": 4, "cmds": ["Pause", "none"]}]
+        return [{"template": t, "n": 3, "cmds": [a]} for t in TEMPLATES for a in CMDS] + [{"template": "long_output", "n": 4, "cmds": ["Pause", "none"]},
+                                                                                            {"template": "error_after_output", "n": 6, "cmds": ["none", "none", "none", "none"]}]
     return [{"template": t, "n": 5, "cmds": [a, b]} for t in TEMPLATES for a in CMDS for b in CMDS]
 
 
